@@ -36,7 +36,7 @@ ASSUMPTIONS = [
 
 def strategy(tier):
     thorough = tier == "thorough"
-    opts = gen.TreeOpts(max_depth=4 if thorough else 3, cat_cols=("s", "s", "s", "s", "s", "b"))
+    opts = gen.TreeOpts(max_depth=4 if thorough else 3, cat_cols=("s", "s", "s", "s", "s", "b"), flow_odds=3)
 
     @st.composite
     def cases(draw):
